@@ -573,9 +573,12 @@ impl<TokenIter: Iterator<Item = Result<Token>>> Parser<TokenIter> {
                                         .into()
                                 }
                                 keyword => {
-                                    if let Some(transformer) =
-                                        syntax_env.get(&first.expect_symbol()?)
-                                    {
+                                    // the transformer is copied out: the expansion may itself be a
+                                    // define-syntax, which writes to the table it was found in
+                                    let transformer = syntax_env
+                                        .get(&first.expect_symbol()?)
+                                        .map(|transformer| transformer.clone());
+                                    if let Some(transformer) = transformer {
                                         let remained = DatumBody::Pair(pair).locate(location);
                                         let expanded_datum =
                                             transformer.transform(keyword, remained)?;
